@@ -30,6 +30,7 @@ def run(chk, F):
     chk.guard("no-unbounded-external-recursion", "workspace", lambda: external_recursion(chk, F))
     chk.guard("display-power-bounded", "Number::prettify", lambda: display_power(chk, F))
     chk.guard("alias-walk-bounded", "expand_aliases", lambda: alias_walk(chk, F))
+    chk.guard("batch-answers-every-line", "cli noninteractive", lambda: batch_lines(chk, F))
 
 
 def external_recursion(chk, F):
@@ -157,6 +158,39 @@ def alias_walk(chk, F):
                "every iteration of the walk inserts the current name into a visited set and stops when it was there already",
                "the alias walk has a cycle that no visited-set test bounds (%d back edge(s)): with the user definition `kilometer km` the queries "
                "`kilometer`, `km` panic on a progress assert, with `kliq km` / `kilometer kliq` they never return" % len(cyc))
+
+
+def batch_lines(chk, F):
+    """`every input line ... yields either a reply or an error value`: the CLI's batch loop (`rink -f file`, piped stdin) reads a
+    line and hands it to one_line.  Between the read and the evaluation the loop may leave only because the read failed or read
+    nothing (end of input) - tests on the read's own result.  A test on the *text* of the line (such as "has no newline") that
+    leads out of the loop drops a query without a word: a file whose last line lacks the trailing newline lost its last answer."""
+    fns = [f for f in F.by_crate.get("rink", []) if f.path.startswith("repl::noninteractive") and "{closure" not in f.path]
+    if len(fns) != 1:
+        raise AnchorLost("cli repl::noninteractive not found")
+    fn = fns[0]
+    reads = [bb for bb, t in fn.calls() if "callee" in t and t["callee"]["path"].endswith("BufRead::read_line")]
+    evals = [bb for bb, t in fn.calls() if "callee" in t and t["callee"]["path"].endswith("helpers::one_line")]
+    if len(reads) != 1 or len(evals) != 1:
+        raise AnchorLost("noninteractive: expected one read_line and one one_line call (%d, %d)" % (len(reads), len(evals)))
+    rd, ev = reads[0], evals[0]
+    # tests that lie between the read and the evaluation (dominated by the read, not dominated by the evaluation) and have an
+    # edge from which the evaluation is unreachable
+    bad = []
+    can = fn.can_reach([ev])
+    for s_, kind, ap, info in k2.switch_tests(fn):
+        if not fn.dominates(rd, s_) or fn.dominates(ev, s_) or s_ not in can:
+            continue
+        leaves = [t for lab, t in fn.succs(s_) if t not in can]
+        if not leaves:
+            continue
+        txt = ap_str(ap)
+        on_read_result = "::read_line(" in txt and not any(w in txt for w in ("::find", "::contains", "::ends_with", "::strip_suffix", "String::len(", "str>::len("))
+        if not on_read_result:
+            bad.append((s_, txt[:100]))
+    chk.decide(not bad, "batch-answers-every-line", "rink::repl::noninteractive", "only-the-read-result-ends-the-loop", fn.where(bad[0][0]) if bad else fn.where(rd),
+               "after a line was read the loop leaves before evaluating it only on the read's own result (error or nothing read)",
+               "a line that was read can be dropped without evaluation by a test on its text (%s): `printf '1+1\\n2+2' | rink -f -` answers only the first query" % [b[1] for b in bad][:2])
 
 
 def usable(chk, F):
